@@ -88,7 +88,7 @@ var c07PanicSeen atomic.Bool
 
 // c07Guard runs one case under recover() and a watchdog.  A hung call cannot be killed, so after three
 // hangs the remaining cases are not run (each would cost the full watchdog time on a busy CPU).
-func c07Guard(fn func() string) string { return c07GuardT(2*time.Second, fn) }
+func c07Guard(fn func() string) string { return c07GuardT(5*time.Second, fn) }
 
 // c07Returns reports whether fn returns within d (used for single handler calls inside a scenario).
 func c07Returns(d time.Duration, fn func()) bool {
@@ -166,9 +166,9 @@ func c07Run(t *testing.T, handle func(entry string, n []uint64, f []string) stri
 			fmt.Fprintln(w, "badline")
 			continue
 		}
-		d := 2 * time.Second
-		if strings.HasPrefix(f[0], "bk") { // backlog scenarios contain their own per-call watchdogs
-			d = 30 * time.Second
+		d := 5 * time.Second // generous: a parser call takes microseconds; only a genuinely wedged call gets here
+		if strings.HasPrefix(f[0], "bk") || f[0] == "fzseq" || f[0] == "fzipoe" || f[0] == "radex" { // own per-call watchdogs
+			d = 60 * time.Second
 		}
 		fmt.Fprintln(w, c07GuardT(d, func() string { return handle(f[0], c07Nums(f[1]), f[2:]) }))
 	}
